@@ -134,28 +134,31 @@ class Result(object):
 
     def add_engine(self, eng, case=None, needed=()):
         """Fold one finished symx exploration into the result."""
-        self.paths += eng.paths
-        self.queries += eng.queries
-        self.solver_s += eng.solver_s
-        self.checks += eng.checks_total
-        self.checks_unsat += eng.checks_unsat
+        self.add_summary(summarise(eng), case, needed)
+
+    def add_summary(self, sm, case=None, needed=()):
+        self.paths += sm['paths']
+        self.queries += sm['queries']
+        self.solver_s += sm['solver_s']
+        self.checks += sm['checks']
+        self.checks_unsat += sm['checks_unsat']
         self.cases += 1
-        if not eng.exhausted:
+        if not sm['exhausted']:
             self.exhaustive = False
-        for m in eng.inconclusive:
+        for m in sm['inconclusive']:
             self.inconclusive.append('%s: %s' % (case, m) if case else m)
-        for v in eng.violations:
-            d = v.to_json()
+        for d in sm['violations']:
+            d = dict(d)
             d['case'] = case
             self.violations.append(d)
         for w in needed:
             if w not in self.witnesses_needed:
                 self.witnesses_needed.append(w)
-        for w in eng.witnesses:
+        for w in sm['witnesses']:
             if w not in self.witnesses_found:
                 self.witnesses_found.append(w)
-        if len(self.samples) < 4 and eng.samples:
-            s = dict(eng.samples[0])
+        if len(self.samples) < 4 and sm['samples']:
+            s = dict(sm['samples'][0])
             s['case'] = case
             self.samples.append(s)
 
@@ -163,6 +166,79 @@ class Result(object):
         d = dict(self.__dict__)
         d['solver_s'] = round(self.solver_s, 3)
         return d
+
+
+def summarise(eng):
+    return {'paths': eng.paths, 'queries': eng.queries,
+            'solver_s': eng.solver_s, 'checks': eng.checks_total,
+            'checks_unsat': eng.checks_unsat, 'exhausted': eng.exhausted,
+            'inconclusive': list(eng.inconclusive),
+            'violations': [v.to_json() for v in eng.violations],
+            'witnesses': list(eng.witnesses), 'samples': eng.samples[:2]}
+
+
+def merge_summaries(sms):
+    out = {'paths': 0, 'queries': 0, 'solver_s': 0.0, 'checks': 0,
+           'checks_unsat': 0, 'exhausted': True, 'inconclusive': [],
+           'violations': [], 'witnesses': [], 'samples': []}
+    for sm in sms:
+        for k in ('paths', 'queries', 'solver_s', 'checks', 'checks_unsat'):
+            out[k] += sm[k]
+        out['exhausted'] = out['exhausted'] and sm['exhausted']
+        out['inconclusive'] += sm['inconclusive']
+        out['violations'] += sm['violations']
+        for w in sm['witnesses']:
+            if w not in out['witnesses']:
+                out['witnesses'].append(w)
+        out['samples'] += sm['samples'][:1]
+    return out
+
+
+_SHARD_FN = None
+
+
+def _shard_worker(args):
+    name, prefix, max_paths, tmo = args
+    from vt import symx
+    symx._CUR = None
+    eng = symx.Engine(name=name, max_paths=max_paths, timeout_s=tmo)
+    try:
+        eng.explore(_SHARD_FN, root_prefix=prefix)
+    except symx.HarnessError as e:
+        eng.inconclusive.append('shard harness error: %r' % (e,))
+        eng.exhausted = False
+    sm = summarise(eng)
+    # z3 models are plain python values already
+    return sm
+
+
+def explore_case(case, fn, tmo):
+    """One exploration; sharded over a fork pool when the case asks."""
+    from vt import symx
+    global _SHARD_FN
+    if not case.shard_depth:
+        eng = symx.Engine(name=case.name, max_paths=case.max_paths,
+                          timeout_s=tmo)
+        eng.explore(fn)
+        return summarise(eng)
+    t0 = time.time()
+    head = symx.Engine(name=case.name, max_paths=case.max_paths,
+                       timeout_s=tmo)
+    head.depth_limit = case.shard_depth
+    head.explore(fn)
+    sms = [summarise(head)]
+    frontier = head.frontier
+    if frontier:
+        import multiprocessing
+        _SHARD_FN = fn
+        left = (tmo - (time.time() - t0)) if tmo else None
+        ctx = multiprocessing.get_context('fork')
+        jobs = [(case.name, p, case.max_paths, left) for p in frontier]
+        with ctx.Pool(min(case.procs, len(jobs))) as pool:
+            sms += pool.map(_shard_worker, jobs, chunksize=1)
+    sm = merge_summaries(sms)
+    sm['shards'] = len(frontier)
+    return sm
 
 
 def run_obligation(oid, tier, seed):
@@ -220,13 +296,15 @@ def _default(o):
 # ----------------------------------------------------------------------
 class Case(object):
     def __init__(self, name, fn, needed=(), max_paths=200000, timeout_s=None,
-                 replay=None):
+                 replay=None, shard_depth=0, procs=8):
         self.name = name
         self.fn = fn
         self.needed = list(needed)
         self.max_paths = max_paths
         self.timeout_s = timeout_s
         self.strong_replay = replay   # optional: fn(model) -> (bool, text)
+        self.shard_depth = shard_depth
+        self.procs = procs
 
 
 def _wrap(fn):
@@ -270,12 +348,12 @@ def drive_cases(oid, cases, res=None, budget_s=None):
                 res.exhaustive = False
                 continue
             tmo = min(tmo, left) if tmo else left
-        eng = symx.Engine(name=case.name, max_paths=case.max_paths,
-                          timeout_s=tmo)
         fn = _wrap(case.fn)
-        eng.explore(fn)
+        sm = explore_case(case, fn, tmo)
         n0 = len(res.violations)
-        res.add_engine(eng, case=case.name, needed=case.needed)
+        res.add_summary(sm, case=case.name, needed=case.needed)
+        if sm.get('shards'):
+            res.notes.append('%s: %d shards' % (case.name, sm['shards']))
         seen = set()
         for v in res.violations[n0:]:
             v['signature'] = signature_of(oid, case.name, v)
